@@ -91,7 +91,7 @@ PROPS['C13'].update({
     'level_text': ('Mixed. PROVED (Verus, all trees, all K, all start nodes, all positions): DfsPre::next / DfsEdge::next return the head of the remaining '
                    'pre-order `rem(stack)` of a spec traversal (children by ascending label, depth and remaining-sibling counters) and leave the tail to come; '
                    'skip_subtree drops exactly the entries pushed by the last next() (lemma: next then skip removes exactly pre_items(last) minus the item itself; a second '
-                   'skip is a no-op); the spec pre-order of a start node lists EXACTLY the nodes at or below it, EACH ONCE (lemma_pre_exact: membership <=> sub_nodes, no duplicate index); size_hint: DfsPre::new starts with bounds that bracket the number of items to come - exactly the tree size when started at the root (counting lemma lemma_pre_count: the pre-order of a subtree lists every node of the subtree exactly once; subtrees of different children are disjoint, everything hangs below the root) - and next / skip_subtree preserve the bracket, so DfsPre::size_hint ALWAYS brackets the remaining count; the same for DfsEdge (lemma_edges_count: one edge per node below the start, initial bracket of DfsEdge::new proved); for Bfs the step contracts and lemma_bfs_partition over the step relation: the subtrees of the queue entries partition what is still to come, each `next` returns a node that was still to come and removes exactly it - so a run of `next` calls from `new` returns every node at or below the start exactly once (the level order itself is the step relation: front out, children appended in ascending label order); Bfs::next / skip_subtree obey the queue discipline with correct '
+                   'skip is a no-op); the spec pre-order of a start node lists EXACTLY the nodes at or below it, EACH ONCE (lemma_pre_exact: membership <=> sub_nodes, no duplicate index; lemma_edges_exact: the same for the edge pre-order, edges identified by their target); size_hint: DfsPre::new starts with bounds that bracket the number of items to come - exactly the tree size when started at the root (counting lemma lemma_pre_count: the pre-order of a subtree lists every node of the subtree exactly once; subtrees of different children are disjoint, everything hangs below the root) - and next / skip_subtree preserve the bracket, so DfsPre::size_hint ALWAYS brackets the remaining count; the same for DfsEdge (lemma_edges_count: one edge per node below the start, initial bracket of DfsEdge::new proved); for Bfs the step contracts and lemma_bfs_partition over the step relation: the subtrees of the queue entries partition what is still to come, each `next` returns a node that was still to come and removes exactly it - so a run of `next` calls from `new` returns every node at or below the start exactly once (the level order itself is the step relation: front out, children appended in ascending label order); Bfs::next / skip_subtree obey the queue discipline with correct '
                    'depth / remaining-sibling counters; DfsEdge::new seeds from the given root; Tree::path_to_node (unit tree_path) returns Err exactly for unknown indices and otherwise the (node, label) steps from the root down to the node '
                    '(path_ok: first entry is the root, each entry lists the next one under its label, the last lists the node), and terminates. BOUNDED only (bc traversal, exhaustive small trees): the initial size bounds '
                    'of Bfs::new, PolyhedraIter::size_hint, index-order iterators, num_nodes, num_terminals, depth, depth_stats (iterator pipelines).'),
